@@ -16,12 +16,20 @@ PLAIN_CLASSES = {
         ("_wakeup_sequence", "int"),
         ("_idle_check_pending", "bool"),
         ("_pending_workers", "list[PendingStart]"),
+        ("state", "BrokerState"),
     ],
+}
+
+OPAQUE_ATTRS = {
+    ("InternalRunAdapter", "run_id"): "str",
 }
 
 OPAQUE_METHODS = {
     ("InternalRunAdapter", "get_now"): dict(ret="float", pure=False),
     ("InternalRunAdapter", "write_to_event_stream"): dict(ret="None", pure=False),
+    # the journal hooks of the adapter (persistence_runtime's adapter is one implementation, see PersistTick)
+    ("InternalRunAdapter", "on_tick"): dict(ret="None", pure=False, log=True, may_raise=True),
+    ("InternalRunAdapter", "after_tick"): dict(ret="None", pure=False, log=True, may_raise=True),
 }
 
 
@@ -171,3 +179,36 @@ class ProcessCommand:
             )
             and ((not isinstance(command, CommandCompleteRun)) or same(result, command.result))
         )
+
+
+@contract("workflows.runtime.control_loop._ControlLoopRunner._process_tick")
+class RunnerProcessTick:
+    properties = ["C11", "C13"]
+    modifies = ["self"]
+    raises = ["ValueError", "*user"]
+
+    def requires(self, tick):
+        return (
+            wf(self.state)
+            and Inv1(self.state)
+            and ((not isinstance(tick, TickStepResult)) or (tick.step_name in self.state.workers and no_forged_telemetry(tick)))
+        )
+
+    # loop 1: for command in commands
+    def inv_1():
+        return True
+
+    def ensures_every_reduced_tick_is_shown_to_the_journal(old, self, tick, result):
+        # C11 / C13: a tick the live loop has reduced is handed to adapter.on_tick exactly once - before any of its
+        # commands is executed - so that the journal a replay reads is complete; after_tick follows exactly when the
+        # tick did not end the run
+        return (
+            tcalls("InternalRunAdapter", "on_tick") == 1
+            and same(tcall_pos("InternalRunAdapter", "on_tick", 0, 0), tick)
+            and tcalls("InternalRunAdapter", "after_tick") == (1 if result is None else 0)
+        )
+
+    def raised_ValueError(old, self, tick, exc):
+        # a tick the reducer rejected did not change the state and is not journaled - or it was journaled first and
+        # one of its commands failed afterwards (Halt / FailWorkflow carry their exception)
+        return tcalls("InternalRunAdapter", "on_tick") <= 1 and tcalls("InternalRunAdapter", "after_tick") == 0
